@@ -9,6 +9,9 @@
 // Both programs run in their own fresh env and must agree on error-or-success,
 // on the result (value and dynamic type) and on the final content of every
 // prelude variable (so that writes through a chain reach the same object).
+//
+// A second sub-check, `held` (held_test.go), puts the value into a NAMED place and overwrites that place after
+// the operand was consumed: a value that was bound to a name or used as an earlier operand stays what it was.
 package c20
 
 import (
